@@ -43,7 +43,7 @@ class Flux2:
 
 
 def recon2(r):
-    return fd.xnum.extrapol2d1() if r[0] == "e1" else fd.xnum.extrapol2dk(r[1])
+    return fd.recon2(r)
 
 
 def run_rhs2(nx, ny, dx, dy, data, recon, bc, flux):
